@@ -96,6 +96,18 @@ Proof.
   rewrite (H k); [reflexivity|]. apply in_map_iff. exists (k, d). auto.
 Qed.
 
+Definition known_only (d : dict) : dict := filter (fun kv => dmem (fst kv) cfgd) d.
+
+Lemma dget_known_only d k : dget k (known_only d) = if dmem k cfgd then dget k d else None.
+Proof. unfold known_only. apply (dget_filter_key (fun k => dmem k cfgd)). Qed.
+
+(* the filter of load_config, applied to a Config object, keeps exactly the keys Config defines *)
+Lemma filter_known kw d : filter (fun kv => dmem (fst kv) (cfg_image kw)) d = known_only d.
+Proof. unfold known_only. apply filter_ext. intros kv. apply dmem_cfg_image. Qed.
+
+Lemma dmem_known_only_self d : dmem s_self cfgd = false -> dmem s_self (known_only d) = false.
+Proof. intros H. unfold dmem. rewrite dget_known_only, H. reflexivity. Qed.
+
 Definition mark (ns : dict) (opt : key) : bool := truthy (dgetd (opt ++ s_explicit) ns (PBool false)).
 
 Lemma dget_explicit_options ns k :
@@ -118,7 +130,6 @@ Proof. unfold file_value. rewrite select_file_spec. destruct (spec_config_file h
 
 Lemma config_of_ns_spec has_toml ns ftoml fjson :
   dmem s_self cfgd = false -> dmem s_self ns = false ->
-  dmem s_self (select_file has_toml ftoml fjson) = false ->
   exists c, config_of_ns cfgd has_toml ns ftoml fjson = Ok c
     /\ map fst c = map fst cfgd
     /\ forall opt d0, dget opt cfgd = Some d0 ->
@@ -130,7 +141,7 @@ Lemma config_of_ns_spec has_toml ns ftoml fjson :
                                       end
                             end).
 Proof.
-  intros Hc Hns Hf. unfold config_of_ns. rewrite cfg_init_ok by assumption.
+  intros Hc Hns. unfold config_of_ns. rewrite cfg_init_ok by assumption.
   set (file := select_file has_toml ftoml fjson) in *.
   (* after load_config *)
   assert (L : exists c1, load_config cfgd has_toml ftoml fjson (cfg_image ns) = Ok c1
@@ -143,11 +154,13 @@ Proof.
       + apply cfg_image_keys.
       + intros opt d0 Hd. rewrite dget_cfg_image, Hd. reflexivity.
     - rewrite <- Efile in *. replace (dempty file) with false by (rewrite Efile; reflexivity).
-      unfold dupdate. rewrite cfg_init_ok by (rewrite dmem_app, Hf, dmem_cfg_image; exact Hc).
-      exists (cfg_image (file ++ cfg_image ns)). repeat split.
+      unfold dupdate. rewrite filter_known.
+      rewrite cfg_init_ok by (rewrite dmem_app, dmem_known_only_self, dmem_cfg_image; auto).
+      exists (cfg_image (known_only file ++ cfg_image ns)). repeat split.
       + now rewrite dmem_cfg_image.
       + apply cfg_image_keys.
-      + intros opt d0 Hd. rewrite dget_cfg_image, Hd, dgetd_app. f_equal.
+      + intros opt d0 Hd. rewrite dget_cfg_image, Hd, dgetd_app, dget_known_only. f_equal.
+        unfold dmem. rewrite Hd.
         destruct (dget opt file); [reflexivity|]. unfold dgetd at 1. rewrite dget_cfg_image, Hd. reflexivity. }
   destruct L as (c1 & HL & Hs1 & Hk1 & Hv1). rewrite HL.
   unfold cfg_update, dupdate.
@@ -311,12 +324,11 @@ Theorem precedence t has_toml sub p cli cv ftoml fjson opt :
   convert_cli p cli = Ok cv ->
   wf_namesb t p opt = true -> dmem s_self cfgd = false ->
   dmem opt cfgd = true ->
-  dmem s_self (select_file has_toml ftoml fjson) = false ->
   (dget opt cv <> None -> marks_explicit p opt) ->
   effective cfgd t has_toml sub cli ftoml fjson opt =
     Ok (spec_effective (dget opt cv) (file_value has_toml ftoml fjson opt) (builtin_default t sub opt)).
 Proof.
-  intros Hp Hcv Hwf Hcs Hopt Hfs Hmark.
+  intros Hp Hcv Hwf Hcs Hopt Hmark.
   destruct (wf_namesb_spec _ _ _ Hwf) as (WB & WP & (WS & WS') & WSo).
   destruct (namespace_shape t sub p cli cv Hp Hcv) as (pre & post & Hns & Hns0 & Hpre & Hpost).
   unfold effective, main_config, builtin_default. rewrite Hns, Hns0.
@@ -331,7 +343,7 @@ Proof.
   assert (NsSelf : forall cv', dmem s_self (pre ++ ns_of_parser p cv' ++ post) = false).
   { intros cv'. unfold dmem. rewrite !dget_app, PreK by (intros E; now apply WS').
     rewrite ns_no_self by (intros a Hin; now apply WP). now rewrite PostSelf. }
-  destruct (config_of_ns_spec has_toml (pre ++ ns_of_parser p cv ++ post) ftoml fjson Hcs (NsSelf cv) Hfs)
+  destruct (config_of_ns_spec has_toml (pre ++ ns_of_parser p cv ++ post) ftoml fjson Hcs (NsSelf cv))
     as (c & Hc & _ & Hv).
   rewrite Hc. unfold dmem in Hopt. destruct (dget opt cfgd) as [d0|] eqn:Hd0; [|discriminate].
   unfold dgetd at 1. rewrite (Hv opt d0 Hd0). f_equal.
@@ -357,12 +369,11 @@ Theorem unmarked_loses_to_file t has_toml sub p cli cv ftoml fjson opt v fv :
   convert_cli p cli = Ok cv ->
   wf_namesb t p opt = true -> dmem s_self cfgd = false ->
   dmem opt cfgd = true ->
-  dmem s_self (select_file has_toml ftoml fjson) = false ->
   (forall a, In a p -> a_dest a = opt -> a_explicit a = false) ->
   dget opt cv = Some v -> file_value has_toml ftoml fjson opt = Some fv ->
   effective cfgd t has_toml sub cli ftoml fjson opt = Ok fv.
 Proof.
-  intros Hp Hcv Hwf Hcs Hopt Hfs Hun Hg Hf.
+  intros Hp Hcv Hwf Hcs Hopt Hun Hg Hf.
   destruct (wf_namesb_spec _ _ _ Hwf) as (WB & WP & (WS & WS') & WSo).
   destruct (namespace_shape t sub p cli cv Hp Hcv) as (pre & post & Hns & _ & Hpre & Hpost).
   unfold effective, main_config. rewrite Hns.
@@ -376,7 +387,7 @@ Proof.
   assert (NsSelf : dmem s_self (pre ++ ns_of_parser p cv ++ post) = false).
   { unfold dmem. rewrite !dget_app, PreK by (intros E; now apply WS').
     rewrite ns_no_self by (intros a Hin; now apply WP). now rewrite PostSelf. }
-  destruct (config_of_ns_spec has_toml _ ftoml fjson Hcs NsSelf Hfs) as (c & Hc & _ & Hv).
+  destruct (config_of_ns_spec has_toml _ ftoml fjson Hcs NsSelf) as (c & Hc & _ & Hv).
   rewrite Hc. unfold dmem in Hopt. destruct (dget opt cfgd) as [d0|] eqn:Hd0; [|discriminate].
   unfold dgetd at 1. rewrite (Hv opt d0 Hd0). f_equal.
   rewrite file_value_select in Hf. rewrite Hf.
@@ -422,60 +433,51 @@ Proof.
 Qed.
 
 Lemma load_config_image has_toml ftoml fjson kw :
-  NoDup (map fst cfgd) -> dmem s_self cfgd = false -> dmem s_self (select_file has_toml ftoml fjson) = false ->
+  NoDup (map fst cfgd) -> dmem s_self cfgd = false ->
   load_config cfgd has_toml ftoml fjson (cfg_image kw)
-  = Ok (cfg_image (select_file has_toml ftoml fjson ++ cfg_image kw)).
+  = Ok (cfg_image (known_only (select_file has_toml ftoml fjson) ++ cfg_image kw)).
 Proof.
-  intros Hnd Hc Hf. unfold load_config. destruct (select_file has_toml ftoml fjson) as [|kv f] eqn:E.
-  - cbn [dempty app]. now rewrite cfg_image_idem.
-  - cbn [dempty]. unfold dupdate. rewrite cfg_init_ok; [reflexivity|].
-    rewrite dmem_app, Hf, dmem_cfg_image. exact Hc.
+  intros Hnd Hc. unfold load_config. destruct (select_file has_toml ftoml fjson) as [|kv f] eqn:E.
+  - cbn [dempty known_only filter app]. now rewrite cfg_image_idem.
+  - cbn [dempty]. unfold dupdate. rewrite filter_known, cfg_init_ok; [reflexivity|].
+    rewrite dmem_app, dmem_known_only_self, dmem_cfg_image; auto.
 Qed.
 
-(* the Config main() ends up with depends on the selected file only through the keys Config defines
-   (as long as no key is called "self", see unknown_key_self) *)
+(* the Config main() ends up with depends on the selected file only through the keys Config defines: whatever
+   else the file holds -- including a key called "self" -- is ignored *)
 Theorem unknown_keys_ignored has_toml ns ft fj ft' fj' :
   NoDup (map fst cfgd) -> dmem s_self cfgd = false ->
-  dmem s_self (select_file has_toml ft fj) = false -> dmem s_self (select_file has_toml ft' fj') = false ->
   (forall k, dmem k cfgd = true -> dget k (select_file has_toml ft fj) = dget k (select_file has_toml ft' fj')) ->
   config_of_ns cfgd has_toml ns ft fj = config_of_ns cfgd has_toml ns ft' fj'.
 Proof.
-  intros Hnd Hc Hf Hf' Hag. unfold config_of_ns.
+  intros Hnd Hc Hag. unfold config_of_ns.
   destruct (dmem s_self ns) eqn:Hns; [unfold cfg_init; now rewrite Hns|].
   rewrite cfg_init_ok by assumption. rewrite !load_config_image by assumption.
-  replace (cfg_image (select_file has_toml ft' fj' ++ cfg_image ns))
-    with (cfg_image (select_file has_toml ft fj ++ cfg_image ns)); [reflexivity|].
-  apply cfg_image_ext. intros k Hk. rewrite !dget_app, (Hag k (in_keys_dmem k Hk)). reflexivity.
+  replace (cfg_image (known_only (select_file has_toml ft' fj') ++ cfg_image ns))
+    with (cfg_image (known_only (select_file has_toml ft fj) ++ cfg_image ns)); [reflexivity|].
+  apply cfg_image_ext. intros k Hk. pose proof (in_keys_dmem k Hk) as Hm.
+  rewrite !dget_app, !dget_known_only, Hm, (Hag k Hm). reflexivity.
 Qed.
-
-Definition known_only (d : dict) : dict := filter (fun kv => dmem (fst kv) cfgd) d.
-
-Lemma dget_known_only d k : dget k (known_only d) = if dmem k cfgd then dget k d else None.
-Proof. unfold known_only. apply (dget_filter_key (fun k => dmem k cfgd)). Qed.
 
 Corollary unknown_keys_dropped has_toml ns ft fj :
   NoDup (map fst cfgd) -> dmem s_self cfgd = false ->
-  dmem s_self (select_file has_toml ft fj) = false ->
   config_of_ns cfgd has_toml ns ft fj
   = config_of_ns cfgd has_toml ns (option_map known_only ft) (option_map known_only fj).
 Proof.
-  intros Hnd Hc Hf.
+  intros Hnd Hc.
   assert (Sel : select_file has_toml (option_map known_only ft) (option_map known_only fj)
                 = known_only (select_file has_toml ft fj)).
   { unfold select_file. destruct has_toml, ft, fj; reflexivity. }
   apply unknown_keys_ignored; try assumption.
-  - rewrite Sel. unfold dmem. rewrite dget_known_only, Hc. reflexivity.
-  - intros k Hk. rewrite Sel, dget_known_only, Hk. reflexivity.
+  intros k Hk. rewrite Sel, dget_known_only, Hk. reflexivity.
 Qed.
 
-(* ... and "self" is the exception: such a key makes Config.__init__ raise TypeError *)
-Theorem unknown_key_self has_toml ns ft fj :
-  dmem s_self ns = false ->
-  dmem s_self (select_file has_toml ft fj) = true ->
-  config_of_ns cfgd has_toml ns ft fj = Err TypeE.
+(* and the pipeline never fails because of the FILE: with a namespace free of a dest called "self" it returns a
+   Config with exactly Config's keys *)
+Theorem config_total has_toml ns ft fj :
+  dmem s_self cfgd = false -> dmem s_self ns = false ->
+  exists c, config_of_ns cfgd has_toml ns ft fj = Ok c /\ map fst c = map fst cfgd.
 Proof.
-  intros Hns Hf. unfold config_of_ns. rewrite cfg_init_ok by assumption.
-  unfold load_config. destruct (select_file has_toml ft fj) as [|kv f] eqn:E; [discriminate|].
-  cbn [dempty]. unfold dupdate, cfg_init. rewrite dmem_app, Hf. reflexivity.
+  intros Hc Hns. destruct (config_of_ns_spec has_toml ns ft fj Hc Hns) as (c & H1 & H2 & _). eauto.
 Qed.
 End Pipeline.
